@@ -372,7 +372,7 @@ func normalize(t *Term) *Term {
 	case OpLen:
 		x := StripConv(t.Args[0])
 		if els, ok := SeqElems(x); ok {
-			return &Term{Op: OpConst, Name: fmt.Sprint(len(els)), Pos: t.Pos, Typ: t.Typ}
+			return &Term{Op: OpConst, Name: fmt.Sprint(len(els)), Pos: t.Pos, Typ: t.Typ, Ctx: seqLen}
 		}
 		switch x.Op {
 		case OpCopyOf:
@@ -585,4 +585,17 @@ func nonNegTerm(t *Term) bool {
 		}
 	}
 	return false
+}
+
+type seqLenMarker struct{}
+
+// seqLen marks a constant that is the length of a finite literal sequence (a
+// table): loops bounded by it are unrolled, loops bounded by an ordinary
+// constant are not.
+var seqLen = &seqLenMarker{}
+
+// IsSeqLen reports whether t is such a constant.
+func IsSeqLen(t *Term) bool {
+	t = StripConv(t)
+	return t != nil && t.Op == OpConst && t.Ctx == seqLen
 }
